@@ -28,6 +28,7 @@ class Draws:
         self.scan: int = 0             # result of randint(0, n-1)
         self.u: float = 0.0            # result of random()
         self.k: int = 0                # index random.choice picks
+        self.kmap: List[tuple] = []    # [(list the code may hand to random.choice, prescribed index)] — looked up by content
         self.v: int = 0                # the variance in force: randint(-v, v) is a schedule draw, anything else a scan draw
         self.calls: List[tuple] = []
         self.problems: List[str] = []
@@ -51,10 +52,11 @@ class Draws:
         self.calls.append(("choice", len(xs)))
         if not len(xs):
             raise IndexError("Cannot choose from an empty sequence")
-        if self.k >= len(xs):
-            self.problems.append(f"prescribed choice index {self.k} outside sequence of length {len(xs)}")
+        k = next((kk for lst, kk in self.kmap if [str(x) for x in xs] == [str(x) for x in lst]), self.k)
+        if k >= len(xs):
+            self.problems.append(f"prescribed choice index {k} outside sequence of length {len(xs)}")
             return xs[0]
-        return xs[self.k]
+        return xs[k]
 
     def random(self):
         self.calls.append(("random",))
@@ -262,6 +264,84 @@ def run_prob(case: dict) -> Tuple[List[str], List[str], List[str]]:
     return out, lines, problems
 
 
+# ------------------------------------------------------------------------------------------------ probabilistic, sums off 1
+PN_DEN = 1 << 30          # probabilities are multiples of 2^-30: exact in binary floating point, sums exact
+PN_DELTAS = [0, 0, 0, 1, -1, 8, -8, 16, -16, 17, -17, 32, -32, 256, -256, 1000, -1000, 2048, -2048]
+# in units of 2^-30: 16 = 2^-26 = numpy's atol exactly (accepted), 17 / 32 just outside (ValueError in get_action, the settings
+# validator accepts up to 1e-6 ~ 1073 units), 2048 = 2^-19 rejected by the validator
+
+
+def gen_probn(rng: Rng, malformed: bool = False) -> dict:
+    n = rng.range(1, 6)
+    units = [0] * n
+    for _ in range(16):
+        units[rng.below(n) if rng.chance(2, 3) else rng.below(max(1, n // 2))] += 1
+    ws = [u << 26 for u in units]
+    delta = rng.choice(PN_DELTAS)
+    pos = [i for i, w in enumerate(ws) if w > 0]
+    ws[rng.choice(pos)] += delta
+    n_actions = n
+    if malformed:
+        w = rng.below(3)
+        if w == 0 and n > 1:
+            a = rng.choice(pos)
+            b = rng.choice([i for i in range(n) if i != a])
+            ws[a] += ws[b] + (1 << 26)    # a negative probability, sum unchanged: numpy raises "probabilities are not non-negative"
+            ws[b] = -(1 << 26)
+        elif w == 1:
+            n_actions = n + 1
+        else:
+            n_actions = max(0, n - 1)
+    keys = rng.shuffle(list(range(n))) if rng.chance(3, 4) else list(range(n))
+    return {"agent": "probn", "table": [[k, ws[k]] for k in keys], "den": PN_DEN, "n_actions": n_actions,
+            "draws": rng.range(3, 12), "seed": rng.below(1 << 30)}
+
+
+def run_probn(case: dict) -> Tuple[List[str], List[str], List[str]]:
+    """ProbabilisticAgent with probability vectors whose sum is off 1 by a few ulps / more than numpy's tolerance / more than
+    the validator's, and with negative entries: model line `probn` (argument checks of `Generator.choice` modelled)."""
+    import numpy as np
+    den = case["den"]
+    probs = {int(k): w / den for k, w in case["table"]}
+    cfg = {"ref": "g", "team": "GREEN", "type": "probabilistic-agent",
+           "agent_settings": {"action_probabilities": probs},
+           "action_space": {"action_map": {i: {"action": "node-shutdown", "options": {"node_name": f"n{i}"}}
+                                           for i in range(case["n_actions"])}}}
+    tb = ",".join(f"{k}:{w}" for k, w in case["table"]) or "-"
+    out, lines, problems = [], [], []
+    if any(Fraction(w / den) != Fraction(w, den) for _, w in case["table"]):
+        problems.append("rig: a probability of the case is not exact in binary floating point")
+    try:
+        agent = _agent_from(cfg)
+    except Exception:
+        agent = None
+    order = vector_order_of_impl()
+    by_key = dict((int(k), w) for k, w in case["table"])
+    vec = [by_key.get(i, 0) for i in range(len(by_key))] if order == "key" else [w for _, w in case["table"]]
+    total = sum(vec)
+    bounds = [Fraction(sum(vec[:i + 1]), total) for i in range(len(vec))] if total > 0 else []
+    agent_rng = np.random.default_rng(case["seed"])
+    if agent is not None:
+        agent.rng = agent_rng
+    for _ in range(case["draws"]):
+        u = copy.deepcopy(agent_rng).random()
+        fr = Fraction(u)
+        if any(abs(fr - b) < Fraction(1, 1 << 48) for b in bounds):
+            agent_rng.random()          # within rounding distance of a cdf boundary: float and exact comparison may differ
+            continue
+        lines.append(f"probn {order} {case['n_actions']} {den} {fr.numerator} {fr.denominator} {tb}")
+        if agent is None:
+            out.append("rejected")
+            continue
+        try:
+            act, par = game_call(agent, 0)
+            out.append(f"chose {int(par['node_name'][1:])}")
+        except Exception:
+            out.append("raised")
+            agent_rng.random()
+    return out, lines, problems
+
+
 _ORDER_CACHE: Dict[str, str] = {}
 
 
@@ -280,6 +360,32 @@ def vector_order_of_impl() -> str:
 ADDRS = ["192.168.230.0/29", "192.168.10.0/26", "192.168.20.0/30", "192.168.220.0/29", "10.9.0.0/24"]
 TARGET_IP = "192.168.220.3"
 OTHER_IPS = ["192.168.230.2", "192.168.10.5"]
+START_NODES = ["pc-a", "pc-b", "pc-c"]
+TARGET_IPS = ["192.168.220.4", "192.168.220.5"]
+PORTS = {"HTTP": "80", "DNS": "53", "FTP": "21"}           # name in the settings -> validated value (cross-checked at run time)
+PROTOS = {"TCP": "tcp", "UDP": "udp", "ICMP": "icmp"}
+
+
+def start_nodes_of(case: dict) -> List[str]:
+    return case.get("startNodes", START_NODES[:2])
+
+
+def target_ips_of(case: dict) -> List[str]:
+    return case.get("targetIps", [])
+
+
+def target_of(case: dict) -> str:
+    """The address `_select_target_ip` ends up with for the prescribed choice."""
+    t = target_ips_of(case)
+    return t[case.get("targetIdx", 0)] if t else TARGET_IP
+
+
+def c2_of(case: dict) -> dict:
+    return case.get("c2", {"name": "c2-srv", "ip": "8.8.8.8", "keepAlive": 5, "port": "HTTP", "proto": "TCP"})
+
+
+def pay_of(case: dict) -> dict:
+    return case.get("pay", {"folder": None, "user": "admin", "pass": "admin"})
 
 
 def gen_sched(rng: Rng, malformed: bool) -> Tuple[int, int, int]:
@@ -315,10 +421,18 @@ def gen_tap1(rng: Rng, malformed: bool = False) -> dict:
     if malformed and rng.chance(1, 6):
         n_addr = 0
     pr = lambda: rng.choice(DYADIC) if rng.chance(1, 2) else (1, 1)  # noqa: E731
+    n_start = rng.choice([0, 1, 2, 3])            # 0 = empty `starting_nodes`: the default node is used
+    n_tgt = rng.choice([0, 0, 1, 2])
     case = {"agent": "tap1", "start": start, "f": f, "v": v, "rkc": rng.chance(1, 2), "rs": rng.chance(2, 3),
             "pP": pr(), "pC": pr(), "pY": pr(), "attempts": rng.choice([1, 2, 3, 5, 20]), "repeatScan": rng.chance(1, 2),
             "nAddr": n_addr, "exfil": rng.chance(2, 3), "corrupt": rng.chance(2, 3), "cont": rng.chance(1, 2),
-            "startIdx": rng.below(2), "d0": rng.range(-v, v) if v >= 0 else 0, "steps": []}
+            "startNodes": rng.shuffle(list(START_NODES))[:n_start], "startIdx": rng.below(max(n_start, 1)),
+            "targetIps": TARGET_IPS[:n_tgt], "targetIdx": rng.below(max(n_tgt, 1)),
+            "c2": {"name": rng.choice(["c2-srv", "isp-pub-srv"]), "ip": rng.choice(["8.8.8.8", "203.0.113.7"]),
+                   "keepAlive": rng.choice([3, 5, 10]), "port": rng.choice(sorted(PORTS)), "proto": rng.choice(sorted(PROTOS))},
+            "pay": {"folder": rng.choice([None, "loot"]), "user": rng.choice(["admin", "exf-user"]),
+                    "pass": rng.choice(["admin", "exf-pass"])},
+            "d0": rng.range(-v, v) if v >= 0 else 0, "steps": []}
     fail_rate = rng.choice([0, 0, 5, 15, 40])
     lucky = rng.chance(1, 2)        # scan responses that tend to find the target with an open database port
     if lucky:
@@ -333,50 +447,58 @@ def gen_tap1(rng: Rng, malformed: bool = False) -> dict:
 
 def tap1_cfg(case: dict) -> dict:
     fl = lambda p: p[0] / p[1]  # noqa: E731
+    c2, pay = c2_of(case), pay_of(case)
     return {"ref": "attacker", "team": "RED", "type": "tap-001", "agent_settings": {
         "start_step": case["start"], "frequency": case["f"], "variance": case["v"], "repeat_kill_chain": case["rkc"],
         "repeat_kill_chain_stages": case["rs"], "default_target_ip": TARGET_IP, "default_starting_node": "pc-default",
-        "starting_nodes": ["pc-a", "pc-b"], "kill_chain": {
+        "starting_nodes": list(start_nodes_of(case)), "target_ips": list(target_ips_of(case)), "kill_chain": {
             "ACTIVATE": {"probability": 1},
             "PROPAGATE": {"probability": fl(case["pP"]), "scan_attempts": case["attempts"], "repeat_scan": case["repeatScan"],
                           "network_addresses": ADDRS[:case["nAddr"]]},
-            "COMMAND_AND_CONTROL": {"probability": fl(case["pC"]), "keep_alive_frequency": 5, "masquerade_port": "HTTP",
-                                    "masquerade_protocol": "TCP", "c2_server_name": "c2-srv", "c2_server_ip": "8.8.8.8"},
+            "COMMAND_AND_CONTROL": {"probability": fl(case["pC"]), "keep_alive_frequency": c2["keepAlive"], "masquerade_port": c2["port"],
+                                    "masquerade_protocol": c2["proto"], "c2_server_name": c2["name"], "c2_server_ip": c2["ip"]},
             "PAYLOAD": {"probability": fl(case["pY"]), "exfiltrate": case["exfil"], "corrupt": case["corrupt"],
-                        "exfiltration_folder_name": None, "target_username": "admin", "target_password": "admin",
+                        "exfiltration_folder_name": pay["folder"], "target_username": pay["user"], "target_password": pay["pass"],
                         "continue_on_failed_exfil": case["cont"]}}}}
 
 
-def _data1(r: dict) -> dict:
-    hosts = [] if r["hostsEmpty"] else [OTHER_IPS[0]] + ([TARGET_IP] if r["containsTarget"] else []) + [OTHER_IPS[1]]
+def _data1(r: dict, target: str = TARGET_IP) -> dict:
+    hosts = [] if r["hostsEmpty"] else [OTHER_IPS[0]] + ([target] if r["containsTarget"] else []) + [OTHER_IPS[1]]
     if r["shape"] == "list":
         return {"live_hosts": hosts}
     d = {}
     for h in hosts:
-        d[h] = {"tcp": [80, 5432] if (h != TARGET_IP or r["hasPg"]) else [80], "udp": [5432]}
+        d[h] = {"tcp": [80, 5432] if (h != target or r["hasPg"]) else [80], "udp": [5432]}
     return d
 
 
+def _pv(k: str, v) -> str:
+    """One parameter value as the driver prints it (`Drivers/C19.lean: showPVal1 / showPVal3`)."""
+    if isinstance(v, bool):
+        return "True" if v else "False"
+    if v is None:
+        return "None"
+    if isinstance(v, (list, tuple)):
+        return "<hosts>" if k == "target_ip_address" else ";".join(_pv("", x) for x in v)
+    if k in ("target_port", "target_protocol"):
+        from primaite.utils.validation.ip_protocol import PROTOCOL_LOOKUP
+        from primaite.utils.validation.port import PORT_LOOKUP
+        if k == "target_port" and v == PORT_LOOKUP["POSTGRES_SERVER"]:
+            return "PORT_LOOKUP[POSTGRES_SERVER]"
+        if k == "target_protocol" and v == PROTOCOL_LOOKUP["TCP"]:
+            return "PROTOCOL_LOOKUP[TCP]"
+    return str(v)
+
+
+def canon_action(act: str, par: dict) -> str:
+    """The full action (name and every parameter, in dictionary order) in the driver's format."""
+    if not par:
+        return f"{act} -"
+    return act + " " + " ".join(f"{k}={_pv(k, v)}" for k, v in par.items())
+
+
 def _canon_act1(agent, act: str, par: dict, case: dict) -> str:
-    if act == "do-nothing":
-        return "do-nothing - -" if par == {} else f"do-nothing?{par}"
-    name = act
-    if act in ("node-application-install", "node-application-execute"):
-        name = f"{act}:{par.get('application_name')}"
-    node = par.get("node_name", par.get("source_node"))
-    host = "start" if node == agent.starting_node else ("c2" if node == "c2-srv" else f"?{node}")
-    tgt = "-"
-    t = par.get("target_ip_address", par.get("server_ip_address")) if act != "c2-server-data-exfiltrate" else None
-    if t is not None:
-        if isinstance(t, list):
-            tgt = "hosts"
-        elif str(t) == TARGET_IP:
-            tgt = "target"
-        elif str(t) in ADDRS:
-            tgt = f"addr{ADDRS.index(str(t))}"
-        else:
-            tgt = f"?{t}"
-    return f"{name} {host} {tgt}"
+    return canon_action(act, par)
 
 
 def _state(agent) -> str:
@@ -391,6 +513,8 @@ def _run_tap(case: dict, cfg: dict, canon_act, make_response, sched_per_step, pa
     with patched_rng() as pr:
         d = pr.fresh(v)
         d.sched, d.k = [case["d0"]], case.get("startIdx", 0)
+        d.kmap = [(cfg["agent_settings"].get("starting_nodes") or [], case.get("startIdx", 0)),
+                  (cfg["agent_settings"].get("target_ips") or [], case.get("targetIdx", 0))]
         try:
             agent = _agent_from(cfg)
         except Exception:
@@ -398,7 +522,11 @@ def _run_tap(case: dict, cfg: dict, canon_act, make_response, sched_per_step, pa
         problems += d.problems
         if agent is None:
             return ["raised"] + ["bad-op"] * len(case["steps"]), problems
-        out.append("ok " + _state(agent))
+        want_choices = [("choice", len(x)) for x in (cfg["agent_settings"].get("starting_nodes"), cfg["agent_settings"].get("target_ips")) if x]
+        got_choices = [c for c in d.calls if c[0] == "choice"]
+        if got_choices != want_choices:
+            problems.append(f"constructor: random.choice calls {got_choices}, the settings say {want_choices}")
+        out.append("ok " + agent.starting_node + (f" {agent.target_ip}" if case["agent"] == "tap1" else "") + " " + _state(agent))
         dead = False
         for t, st in enumerate(case["steps"]):
             if dead:
@@ -442,7 +570,10 @@ def expected_params1(case: dict, agent, act: str, par: dict) -> Optional[dict]:
     compared with the model through the canonical line)."""
     kc = tap1_cfg(case)["agent_settings"]["kill_chain"]
     c2, pay = kc["COMMAND_AND_CONTROL"], kc["PAYLOAD"]
-    node = par.get("node_name", par.get("source_node"))
+    TARGET_IP = target_of(case)     # noqa: N806  (the selected target address)
+    # every action of the DOWNLOAD … COMMAND_AND_CONTROL stages runs on the selected start node, the `c2-server-*` actions of
+    # PAYLOAD on the configured C2 server
+    node = c2["c2_server_name"] if act.startswith("c2-server-") else agent.starting_node
     if act == "node-folder-create":
         return {"node_name": node, "folder_name": "downloads"}
     if act == "node-file-create":
@@ -511,6 +642,7 @@ class Params3:
         self.changes = st["MANIPULATION"]["account_changes"]
         self.acls = st["EXPLOIT"]["malicious_acls"]
         self.j = 0
+        self.n_acl = 0               # ACL commands issued so far (main path)
         self.pending = None          # (host, credentials-to-be) of the password change sent in the previous step
         self.last = None             # (last non-idle action, its pending update)
 
@@ -530,7 +662,8 @@ class Params3:
         return bad_out
 
     def _check(self, t, act, par) -> List[str]:
-        start = _h(0)
+        sn = self.case.get("startNodes", [])
+        start = sn[self.case.get("startIdx", 0)] if sn else _h(0)
         host_of_ip = {str(v.get("ip_address")): h for h, v in self.know.items() if "ip_address" in v}
         if act == "node-account-change-password":
             if self.j >= len(self.changes):
@@ -563,6 +696,11 @@ class Params3:
             pt = lambda x: PORT_LOOKUP.get(x, x) if isinstance(x, str) else x  # noqa: E731  (the schema stores validated port values)
             cands = [["acl", "add_rule", a["permission"], a["protocol_name"], str(a["src_ip"]), str(a["src_wildcard"]), pt(a["src_port"]),
                       str(a["dst_ip"]), str(a["dst_wildcard"]), pt(a["dst_port"]), a["position"]] for a in self.acls if a["target_router"] == h]
+            # ACL rules are issued in configured order (cyclically: `_current_acl` is never reset by a failure or a restart)
+            if cands and self.acls:
+                nxt = self.acls[self.n_acl % len(self.acls)]
+                self.n_acl += 1
+                cands = [c for a, c in zip([a for a in self.acls if a["target_router"] == h], cands) if a is nxt] or [None]
             cmd = par.get("command")
             want = {"node_name": start, "remote_ip": self.know.get(h, {}).get("ip_address"),
                     "command": next((c for c in cands if _same(c, cmd)), cands[0] if cands else None)}
@@ -575,14 +713,27 @@ class Params3:
 
 
 def run_tap1(case: dict) -> Tuple[List[str], List[str]]:
-    return _run_tap(case, tap1_cfg(case), _canon_act1, lambda agent, r: _data1(r), lambda st: [st["d1"], st["d2"]], Params1(case))
+    tgt = target_of(case)
+    out, problems = _run_tap(case, tap1_cfg(case), _canon_act1, lambda agent, r: _data1(r, tgt), lambda st: [st["d1"], st["d2"]], Params1(case))
+    from primaite.utils.validation.ip_protocol import PROTOCOL_LOOKUP
+    from primaite.utils.validation.port import PORT_LOOKUP
+    if any(str(PORT_LOOKUP[k]) != v for k, v in PORTS.items()) or any(str(PROTOCOL_LOOKUP[k]) != v for k, v in PROTOS.items()):
+        problems.append("rig: PORTS / PROTOS tables differ from PORT_LOOKUP / PROTOCOL_LOOKUP")
+    return out, problems
+
+
+def _csv(xs) -> str:
+    return ",".join(str(x) for x in xs) or "-"
 
 
 def lines_tap1(case: dict) -> List[str]:
     c = case
+    c2, pay = c2_of(c), pay_of(c)
     ls = [f"t1-init {c['start']} {c['f']} {c['v']} {bi(c['rkc'])} {bi(c['rs'])} {c['pP'][0]} {c['pP'][1]} {c['pC'][0]} {c['pC'][1]} "
-          f"{c['pY'][0]} {c['pY'][1]} {c['attempts']} {bi(c['repeatScan'])} {c['nAddr']} {bi(c['exfil'])} {bi(c['corrupt'])} "
-          f"{bi(c['cont'])} {c['d0']}"]
+          f"{c['pY'][0]} {c['pY'][1]} {c['attempts']} {bi(c['repeatScan'])} {bi(c['exfil'])} {bi(c['corrupt'])} "
+          f"{bi(c['cont'])} {c['d0']} {c.get('startIdx', 0)} {c.get('targetIdx', 0)} "
+          f"{_csv(start_nodes_of(c))} pc-default {_csv(target_ips_of(c))} {TARGET_IP} {_csv(ADDRS[:c['nAddr']])} "
+          f"{c2['name']} {c2['ip']} {c2['keepAlive']} {PORTS[c2['port']]} {PROTOS[c2['proto']]} {pay['folder']} {pay['user']} {pay['pass']}"]
     for t, st in enumerate(case["steps"]):
         r = st["resp"]
         ls.append(f"t1-step {t} {st['d1']} {st['d2']} {st['u'][0]} {st['u'][1]} {st['dScan']} {bi(r['ok'])} {bi(r['hostsEmpty'])} "
@@ -606,8 +757,10 @@ def gen_tap3(rng: Rng, malformed: bool = False) -> dict:
         elif w == 2:
             creds = [[h, 0] for h, _ in creds]                                # no ip_address for remote hosts
     pr = lambda: rng.choice(DYADIC) if rng.chance(1, 2) else (1, 1)  # noqa: E731
+    n_start = rng.choice([0, 0, 1, 2])           # `starting_nodes`: empty (default node host0) or a list the start node is drawn from
     case = {"agent": "tap3", "start": start, "f": f, "v": v, "rkc": rng.chance(1, 2), "rs": rng.chance(2, 3),
             "pPl": pr(), "pAc": pr(), "pMa": pr(), "pEx": rng.choice(DYADIC), "nHosts": n_hosts, "accts": accts, "acls": acls, "creds": creds,
+            "startNodes": [_h(0), _h(1)][:n_start], "startIdx": rng.below(max(n_start, 1)),
             "d0": rng.range(-v, v) if v >= 0 else 0, "steps": []}
     fail_rate = rng.choice([0, 0, 5, 15, 40])
     for _ in range(rng.range(10, 90)):
@@ -634,37 +787,31 @@ def tap3_cfg(case: dict) -> dict:
         creds[_h(h)] = {"username": f"user{h}", "password": f"pw{h}"}
         if has_ip:
             creds[_h(h)]["ip_address"] = _ip(h)
-    acl = lambda r, pos: {"target_router": _h(r), "position": pos, "permission": ["DENY", "PERMIT"][pos % 2],  # noqa: E731
-                          "src_ip": f"10.7.{pos}.0", "src_wildcard": "0.0.0.255", "dst_ip": "ALL", "dst_wildcard": "NONE",
-                          "src_port": "ALL", "dst_port": ["HTTP", "DNS", "ALL"][pos % 3], "protocol_name": ["tcp", "udp", "ALL"][pos % 3]}
     return {"ref": "insider", "team": "RED", "type": "tap-003", "agent_settings": {
         "start_step": case["start"], "frequency": case["f"], "variance": case["v"], "repeat_kill_chain": case["rkc"],
-        "repeat_kill_chain_stages": case["rs"], "default_starting_node": _h(0), "starting_nodes": [],
+        "repeat_kill_chain_stages": case["rs"], "default_starting_node": _h(0), "starting_nodes": list(case.get("startNodes", [])),
         "kill_chain": {
             "PLANNING": {"probability": fl(case["pPl"]), "starting_network_knowledge": {"credentials": creds}},
             "ACCESS": {"probability": fl(case["pAc"])},
             "MANIPULATION": {"probability": fl(case["pMa"]),
                              "account_changes": [{"host": _h(h), "username": f"acct{j}", "new_password": f"new{j}"}
                                                  for j, h in enumerate(case["accts"])]},
-            "EXPLOIT": {"probability": fl(case.get("pEx", (1, 1))), "malicious_acls": [acl(r, j + 1) for j, r in enumerate(case["acls"])]}}}}
+            "EXPLOIT": {"probability": fl(case.get("pEx", (1, 1))), "malicious_acls": [acl_of(r, j + 1) for j, r in enumerate(case["acls"])]}}}}
+
+
+def acl_of(r: int, pos: int) -> dict:
+    """Malicious ACL no. `pos` (every field identifies its position; values that the schema stores unchanged)."""
+    return {"target_router": _h(r), "position": pos, "permission": ["DENY", "PERMIT"][pos % 2],
+            "src_ip": f"10.7.{pos}.0", "src_wildcard": "0.0.0.255", "dst_ip": ["ALL", f"10.8.{pos}.0"][pos % 2],
+            "dst_wildcard": ["NONE", "0.0.0.127"][pos % 2],
+            "src_port": ["ALL", 21][pos % 2], "dst_port": [80, 53, "ALL"][pos % 3], "protocol_name": ["tcp", "udp", "ALL"][pos % 3]}
+
+
+ACL_FIELDS = ["permission", "protocol_name", "src_ip", "src_wildcard", "src_port", "dst_ip", "dst_wildcard", "dst_port", "position"]
 
 
 def _canon_act3(agent, act: str, par: dict, case: dict) -> str:
-    ips = {_ip(i): i for i in range(case["nHosts"])}
-    names = {_h(i): i for i in range(case["nHosts"])}
-    if act == "do-nothing":
-        return "do-nothing -" if par == {} else f"do-nothing?{par}"
-    if act == "node-account-change-password":
-        return f"{act} {names.get(par.get('node_name'), '?')}"
-    if act == "node-session-remote-login":
-        ok = par.get("node_name") == _h(0)
-        return f"{act} {ips.get(str(par.get('remote_ip')), '?') if ok else '?'}"
-    if act == "node-send-remote-command":
-        cmd = par.get("command", [])
-        sub = cmd[2] if len(cmd) > 2 and cmd[2] == "change_password" else (cmd[1] if len(cmd) > 1 else "?")
-        ok = par.get("node_name") == _h(0)
-        return f"{act}:{sub} {ips.get(str(par.get('remote_ip')), '?') if ok else '?'}"
-    return f"?{act}"
+    return canon_action(act, par)
 
 
 def run_tap3(case: dict) -> Tuple[List[str], List[str]]:
@@ -682,8 +829,12 @@ def run_tap3(case: dict) -> Tuple[List[str], List[str]]:
 def lines_tap3(case: dict) -> List[str]:
     c = case
     csv = lambda xs: ",".join(str(x) for x in xs) or "-"  # noqa: E731
+    accts = csv(f"{_h(h)}:acct{j}:new{j}" for j, h in enumerate(c["accts"]))
+    acls = csv(":".join([_h(r)] + [str(acl_of(r, j + 1)[k]) for k in ACL_FIELDS]) for j, r in enumerate(c["acls"]))
+    creds = csv(f"{_h(h)}:user{h}:pw{h}:{_ip(h) if ip else '~'}" for h, ip in c["creds"])
     ls = [f"t3-init {c['start']} {c['f']} {c['v']} {bi(c['rkc'])} {bi(c['rs'])} {c['pPl'][0]} {c['pPl'][1]} {c['pAc'][0]} {c['pAc'][1]} "
-          f"{c['pMa'][0]} {c['pMa'][1]} {c.get('pEx', (1, 1))[0]} {c.get('pEx', (1, 1))[1]} 0 {csv(c['accts'])} {csv(c['acls'])} {','.join(f'{h}:{ip}' for h, ip in c['creds']) or '-'} {c['d0']}"]
+          f"{c['pMa'][0]} {c['pMa'][1]} {c.get('pEx', (1, 1))[0]} {c.get('pEx', (1, 1))[1]} {c['d0']} {c.get('startIdx', 0)} "
+          f"{csv(c.get('startNodes', []))} {_h(0)} {accts} {acls} {creds}"]
     for t, st in enumerate(case["steps"]):
         r = st["resp"]
         ls.append(f"t3-step {t} {st['d1']} {st['u'][0]} {st['u'][1]} {bi(r['ok'])} {bi(r['hasReason'])} {bi(r['hasLoginData'])}")
@@ -738,7 +889,8 @@ def run_rand(case: dict) -> Tuple[List[str], List[str], List[str]]:
 
 # ================================================================================================ dispatch
 def gen_case(rng: Rng, kind: str, malformed: bool = False) -> dict:
-    return {"periodic": gen_periodic, "prob": gen_prob, "tap1": gen_tap1, "tap3": gen_tap3, "rand": gen_rand}[kind](rng, malformed)
+    return {"periodic": gen_periodic, "prob": gen_prob, "probn": gen_probn, "tap1": gen_tap1, "tap3": gen_tap3,
+            "rand": gen_rand}[kind](rng, malformed)
 
 
 def kind_of(case: dict) -> str:
@@ -754,6 +906,8 @@ def run_impl(case: dict) -> Tuple[List[str], List[str], List[str]]:
         return o, lines_periodic(case), p
     if k == "prob":
         return run_prob(case)
+    if k == "probn":
+        return run_probn(case)
     if k == "rand":
         return run_rand(case)
     if k == "tap1":
